@@ -711,3 +711,144 @@ theorem Sim2.never_ahead {P : Prog} {g : Bool} {c d : Cfg} (h : Sim2 P g c d) : 
     | waiting fn wf wk aw => rw [onWait_waiting c fn wf wk aw hst]
     | _ => unfold onWait; rw [hst]
   · exact hs.never_ahead
+
+/-! ### the reference history `unpaused2` is again an erasure -/
+
+theorem evImage2_mem (g : Bool) (c : Cfg) (x e : Ev) (h : e ∈ evImage2 g c x) : e ≠ .pause ∧ e ≠ .play := by
+  cases x with
+  | pause => simp [evImage2] at h
+  | play => simp [evImage2] at h
+  | tick =>
+    simp only [evImage2] at h
+    split at h
+    · split at h
+      · simp at h; subst h; exact ⟨(by intro h; cases h), (by intro h; cases h)⟩
+      · cases h
+    · simp at h; subst h; exact ⟨(by intro h; cases h), (by intro h; cases h)⟩
+  | _ => simp [evImage2] at h; subst h; exact ⟨(by intro h; cases h), (by intro h; cases h)⟩
+
+theorem unpaused2_no_pp (P : Prog) : ∀ (evs : List Ev) (g : Bool) (c : Cfg), ∀ e ∈ unpaused2 P g c evs, e ≠ .pause ∧ e ≠ .play := by
+  intro evs
+  induction evs with
+  | nil => intro g c e he; simp [unpaused2] at he
+  | cons x rest ih =>
+    intro g c e he
+    simp only [unpaused2, List.mem_append] at he
+    rcases he with he | he
+    · exact evImage2_mem g c x e he
+    · exact ih _ _ e he
+
+theorem unpaused2_sublist (P : Prog) : ∀ (evs : List Ev) (g : Bool) (c : Cfg), (unpaused2 P g c evs).Sublist (erasePP evs) := by
+  intro evs
+  induction evs with
+  | nil => intro g c; exact List.Sublist.slnil
+  | cons x rest ih =>
+    intro g c
+    have := ih (nextG g c x) (step P c x).1
+    cases x with
+    | pause => simpa [unpaused2, evImage2, erasePP] using this
+    | play => simpa [unpaused2, evImage2, erasePP] using this
+    | tick =>
+      simp only [unpaused2, evImage2, erasePP]
+      split
+      · split
+        · exact List.Sublist.cons_cons _ this
+        · exact List.Sublist.cons _ this
+      · exact List.Sublist.cons_cons _ this
+    | tickCb cb => exact List.Sublist.cons_cons _ this
+    | kill => exact List.Sublist.cons_cons _ this
+    | resume v => exact List.Sublist.cons_cons _ this
+    | fail e => exact List.Sublist.cons_cons _ this
+    | cancelFut => exact List.Sublist.cons_cons _ this
+    | complete f o => exact List.Sublist.cons_cons _ this
+    | callSoon r => exact List.Sublist.cons_cons _ this
+
+theorem unpaused2_nonticks (P : Prog) : ∀ (evs : List Ev) (g : Bool) (c : Cfg),
+    (unpaused2 P g c evs).filter (fun e => !isTick e) = (erasePP evs).filter (fun e => !isTick e) := by
+  intro evs
+  induction evs with
+  | nil => intro g c; rfl
+  | cons x rest ih =>
+    intro g c
+    have := ih (nextG g c x) (step P c x).1
+    cases x with
+    | pause => simpa [unpaused2, evImage2, erasePP] using this
+    | play => simpa [unpaused2, evImage2, erasePP] using this
+    | tick =>
+      simp only [unpaused2, evImage2, erasePP]
+      split
+      · split <;> simpa [isTick] using this
+      · simpa [isTick] using this
+    | tickCb cb => simpa [unpaused2, evImage2, erasePP, isTick] using this
+    | kill => simpa [unpaused2, evImage2, erasePP, isTick] using this
+    | resume v => simpa [unpaused2, evImage2, erasePP, isTick] using this
+    | fail e => simpa [unpaused2, evImage2, erasePP, isTick] using this
+    | cancelFut => simpa [unpaused2, evImage2, erasePP, isTick] using this
+    | complete f o => simpa [unpaused2, evImage2, erasePP, isTick] using this
+    | callSoon r => simpa [unpaused2, evImage2, erasePP, isTick] using this
+
+theorem evAllowed_quiet (c : Cfg) (x : Ev) (h : evAllowed c x = true) :
+    x = .tick ∨ x = .pause ∨ x = .play ∨ quiet c = true := by
+  cases x with
+  | tick => exact Or.inl rfl
+  | pause => exact Or.inr (Or.inl rfl)
+  | play => exact Or.inr (Or.inr (Or.inl rfl))
+  | resume v => exact Or.inr (Or.inr (Or.inr h))
+  | complete f o => exact Or.inr (Or.inr (Or.inr h))
+  | callSoon r => exact Or.inr (Or.inr (Or.inr h))
+  | tickCb cb =>
+    cases cb with
+    | adone f => exact Or.inr (Or.inr (Or.inr h))
+    | trykill => simp [evAllowed] at h
+    | usercb r =>
+      cases r with
+      | false => exact Or.inr (Or.inr (Or.inr h))
+      | true => simp [evAllowed] at h
+  | kill => simp [evAllowed] at h
+  | fail e => simp [evAllowed] at h
+  | cancelFut => simp [evAllowed] at h
+
+/-- the new class contains the old one: a history admissible for `C05_transparent_partial` is admissible here, with the same
+reference history -/
+theorem admissible_sub (P : Prog) : ∀ (evs : List Ev) (c : Cfg), admissible P c evs = true →
+    admissible2 P false c evs = true ∧ unpaused2 P false c evs = unpaused P c evs := by
+  intro evs
+  induction evs with
+  | nil => intro c _; exact ⟨rfl, rfl⟩
+  | cons x rest ih =>
+    intro c h
+    simp only [admissible, Bool.and_eq_true] at h
+    have hng : nextG false c x = false := by
+      rcases evAllowed_quiet c x h.1 with rfl | rfl | rfl | hq
+      · simp [nextG]
+      · rfl
+      · rfl
+      · have : heldPc c = false := by
+          cases hh : heldPc c with
+          | false => rfl
+          | true => rw [quiet_not_held c hh] at hq; cases hq
+        cases x <;> simp [nextG, this]
+    have him : evImage2 false c x = evImage c x := by
+      cases x <;> simp [evImage2, evImage, heldPc]
+    have hal : evAllowed2 false c x = true := by
+      cases x with
+      | tick => rfl
+      | pause => rfl
+      | play => rfl
+      | resume v => have hq : quiet c = true := h.1; simp [evAllowed2, isWake, wakeOk, hq]
+      | complete f o => have hq : quiet c = true := h.1; simp [evAllowed2, isWake, wakeOk, hq]
+      | callSoon r => have hq : quiet c = true := h.1; simp [evAllowed2, isWake, wakeOk, hq]
+      | tickCb cb =>
+        cases cb with
+        | adone f => have hq : quiet c = true := h.1; simp [evAllowed2, isWake, wakeOk, hq]
+        | trykill => simp [evAllowed] at h
+        | usercb r =>
+          cases r with
+          | false => have hq : quiet c = true := h.1; simp [evAllowed2, isWake, wakeOk, hq]
+          | true => simp [evAllowed] at h
+      | kill => simp [evAllowed] at h
+      | fail e => simp [evAllowed] at h
+      | cancelFut => simp [evAllowed] at h
+    obtain ⟨i1, i2⟩ := ih (step P c x).1 h.2
+    simp only [admissible2, unpaused2, unpaused, hng, him, hal, i1, i2, Bool.and_self]
+    exact ⟨trivial, trivial⟩
